@@ -31,9 +31,11 @@ open Snel.Gen.C06
 /-- `serde_json::Number` (`N::PosInt(u64) | N::NegInt(i64) | N::Float(f64)`). -/
 inductive Num where
   | pos (n : UInt64)
-  | neg (i : Int64)
+  /-- `NegInt` always holds a negative value (serde_json stores non-negative integers as
+  `PosInt`); the subtype keeps that invariant in the type. -/
+  | neg (i : { i : Int64 // i < 0 })
   | flt (bits : UInt64)
-  deriving DecidableEq, Repr
+  deriving DecidableEq
 
 /-- `serde_json::Value`. -/
 inductive Json where
@@ -228,7 +230,8 @@ def validatePayload (schema : Schema) : Json → Option VErr
 /-- chrono, as a parameter: epoch seconds that `parse_from_rfc3339`, else
 `NaiveDate::parse_from_str(_, "%Y-%m-%d")` at midnight UTC, give for the trimmed text. -/
 structure TimeLib where
-  cal : String → Option Int
+  /-- chrono's `timestamp()` is an `i64`. -/
+  cal : String → Option Int64
 
 /-- `num_digits_u128`. -/
 def numDigits (x : Nat) : Nat :=
@@ -276,11 +279,15 @@ def parseI128 (cs : List Char) : Option Int :=
 def parseTimeStr (lib : TimeLib) (s : String) : Option Int :=
   let t := trimChars s.toList
   match lib.cal (String.ofList t) with
-  | some z => some z
+  | some z => some z.toInt
   | none =>
     match parseI128 t with
     | some n => normalizeIntegerEpoch n
     | none => none
+
+/-- Saturating `as i64`. -/
+def clampI64 (z : Int) : Int :=
+  if z < i64Min then i64Min else if (i64Max : Int) < z then i64Max else z
 
 /-- `f.floor() as i64` on the bit pattern (saturating cast, NaN ↦ 0). -/
 def floorToI64 (bits : UInt64) : Int :=
@@ -288,7 +295,6 @@ def floorToI64 (bits : UInt64) : Int :=
   let negative := b / 2 ^ 63 = 1
   let e := (b / 2 ^ 52) % 2048
   let m := b % 2 ^ 52
-  let clamp (z : Int) : Int := if z < i64Min then i64Min else if (i64Max : Int) < z then i64Max else z
   if e = 2047 then
     if m = 0 then (if negative then i64Min else i64Max) else 0
   else if e = 0 then
@@ -296,12 +302,12 @@ def floorToI64 (bits : UInt64) : Int :=
   else
     let mant : Int := (m + 2 ^ 52 : Nat)
     let signed : Int := if negative then -mant else mant
-    if 1075 ≤ e then clamp (signed * (2 ^ (e - 1075) : Nat))
-    else clamp (Int.fdiv signed ((2 ^ (1075 - e) : Nat) : Int))
+    if 1075 ≤ e then clampI64 (signed * (2 ^ (e - 1075) : Nat))
+    else clampI64 (Int.fdiv signed ((2 ^ (1075 - e) : Nat) : Int))
 
 /-- `serde_json::Number::from(i64)`. -/
 def numOfI64 (z : Int) : Num :=
-  if 0 ≤ z then .pos (UInt64.ofNat z.toNat) else .neg (Int64.ofInt z)
+  if h : Int64.ofInt z < 0 then .neg ⟨Int64.ofInt z, h⟩ else .pos (UInt64.ofNat z.toNat)
 
 inductive TErr where
   | magnitude     -- "Unrecognized integer time magnitude: …"
@@ -316,7 +322,7 @@ def normalizeJsonValue (lib : TimeLib) : Json → Except TErr Json
     | some z => .ok (.num (numOfI64 z))
     | none => .error .magnitude
   | .num (.neg i) =>
-    match normalizeIntegerEpoch i.toInt with
+    match normalizeIntegerEpoch i.val.toInt with
     | some z => .ok (.num (numOfI64 z))
     | none => .error .magnitude
   | .num (.flt b) => .ok (.num (numOfI64 (floorToI64 b)))
